@@ -2,6 +2,7 @@
 C11 — Index files are derived data: always consistent, always rebuildable.
 -/
 import Klev.Proofs.Reach
+import Klev.Proofs.ExtRun
 import Klev.Proofs.Witness
 namespace Klev.C11
 
@@ -27,6 +28,23 @@ theorem reopen_without_index (l : Log) (hinv : Inv l) (rm : List Int) (oo : Open
 theorem rebuilt_index_exact (p : Params) (v : Ver) (recs : List Msg) : ItemsFor v recs (derive p v recs) :=
   Klev.derive_itemsFor p v recs
 
+/-- "key hashes always": with the key index configured, over any history that keeps the index
+configuration, every index file and every loaded index of every segment carries the FNV-1a hashes of
+exactly its segment's keys. -/
+theorem index_files_key_hashes (l : Log) (hinv : Inv l) (hki : KeysInv' l) (ops : List Op)
+    (hsame : SameParams l.opts.params ops) : KeysInv' (runOps l ops) :=
+  Klev.keysInv'_run l hinv hki ops hsame
+
+/-- "timestamps whenever message times never decrease": over any history whose publish times never
+decrease (from the writer's carried time on), every index file and loaded index of every segment
+carries exactly its segment's message times, and the content stays monotone. -/
+theorem index_files_timestamps (l : Log) (hinv : Inv l) (hp : l.opts.params.times = true)
+    (hti : TimesInv l) (hm : Spec.Monotone (abs l)) (hw : Int) (hc : TimeCarry l hw)
+    (ops : List Op) (hsame : SameParams l.opts.params ops) (hmono : PubMono hw ops) :
+    TimesInv (runOps l ops) ∧ Spec.Monotone (abs (runOps l ops)) :=
+  Klev.times_run l hinv hp hti hm ops hsame
+    (Klev.timesOKRun_of_pubMono l hinv hp hti hm hw hc ops hsame hmono)
+
 end Klev.C11
 
 /-! ### Non-vacuity: the theorems at the witness log `Witness.wL` (four segments, bases 0 2 5 8;
@@ -51,8 +69,15 @@ example : (stepOp wL (.reopen [0, 2, 5, 8] none false oo)).segs.map (·.idxf.isS
 example : (stepOp wL (.reopen [0, 2, 5, 8] none false ooRO)).opts.readonly = true ∧
     ((stepOp wL (.reopen [0, 2, 5, 8] none false ooRO)).consume 2 3).2 = (wL.consume 2 3).2 := by decide
 
+-- the two index-content theorems over the witness history (from the empty directory)
+example := Klev.C11.index_files_key_hashes l0 l0_inv (fun _ => Klev.keysInv_open_empty oo l0 open_l0) ops ops_same
+example := Klev.C11.index_files_timestamps l0 l0_inv rfl (Klev.timesInv_open_empty oo l0 open_l0)
+  (by rw [l0_abs]; exact Klev.monotone_empty) 0 l0_carry ops ops_same ops_mono
+
 end NonVacuity
 
 #print axioms Klev.C11.index_files_name_records
 #print axioms Klev.C11.reopen_without_index
 #print axioms Klev.C11.rebuilt_index_exact
+#print axioms Klev.C11.index_files_key_hashes
+#print axioms Klev.C11.index_files_timestamps
